@@ -59,10 +59,14 @@ def attach_invariant():
     return CaseInsensitiveOrderedDict
 
 
-def ops():
+# keys whose lower-case form and case-folded form differ, or whose upper / lower forms change length (walks only)
+UNICODE_KEYS = ["Straße", "STRASSE", "strasse", "µm", "μm", "ΜM", "ſ", "S", "s", "ς", "Σ", "σ", "ﬁ", "FI", "fi", "İ", "i̇", "I", "ı", "Ünï", "ünï"]
+
+
+def ops(keys=None, extra=True):
     """(name, args) descriptors; JSON-able so that a path can be replayed."""
     out = []
-    for k in KEYS:
+    for k in (keys or KEYS):
         out.append(("getitem", [k]))
         out.append(("delitem", [k]))
         out.append(("contains", [k]))
@@ -76,6 +80,8 @@ def ops():
         out.append(("setdefault", [k, [1]]))
         for v in VALS:
             out.append(("setitem", [k, v]))
+    if not extra:
+        return out
     out.append(("update_map", [{"A": 1, "b": 2}]))
     out.append(("update_map", [{"a": 1, "A": 2}]))
     out.append(("update_map", [{"LAYERS": [1]}]))
@@ -343,6 +349,7 @@ def run(ctx):
     drv = Driver(ctx)
     res = ctx.res
     allops = ops()
+    walkops = allops + ops(UNICODE_KEYS, extra=False) + [("update_map", [{"STRASSE": 1, "Straße": 2}]), ("update_kw", [{"ΜM": 1, "µm": 2}])]
     depth = 3 if ctx.quick else 4
     seen = set()
     for factory in (True, False):
@@ -421,7 +428,7 @@ def run(ctx):
         real, model = drv.fresh(factory)
         path = []
         for step in range(200):
-            op = r.choice(allops)
+            op = r.choice(walkops if w % 2 else allops)
             o_real = outcome(apply_real, real, *op)
             o_model = outcome(apply_model, model, *op)
             res.count("transitions")
